@@ -174,8 +174,55 @@ const MUTATIONS: &[&str] = &[
     "drop_index", "swap_sigma", "sigma_other_msg", "stake_plus_one", "stake_total", "key_other_party",
     "key_and_stake_other_party", "path_flip", "path_indices", "path_drop_value", "dup_entry",
     "drop_entry", "signer_index", "swap_entries", "junk_sigma", "move_index_between_entries",
-    "sigma_and_key_other_party", "forged_entry_dup_path_index",
+    "sigma_and_key_other_party", "forged_entry_dup_path_index", "compensated_pair_unit", "compensated_pair_slot_hash",
 ];
+
+/// Two entries' signatures altered by values that cancel in a linear combination with PUBLIC coefficients:
+/// sigma_i + c_j*P and sigma_j - c_i*P (P any group element). The verifier aggregates the signatures with
+/// coefficients derived from ALL the signatures, so no such pair can be prepared; it can for coefficients an
+/// adversary is able to compute beforehand -- `unit`: plain sum (c = 1), `slot_hash`: a hash of the slot number only.
+fn compensated_pair(agg: &mut Value, i: usize, j: usize, ci: [u8; 16], cj: [u8; 16], tweak: u64) -> bool {
+    use blst::{BLST_ERROR, blst_p1, blst_p1_add_or_double, blst_p1_affine, blst_p1_cneg, blst_p1_compress, blst_p1_from_affine,
+               blst_p1_generator, blst_p1_mult, blst_p1_uncompress};
+    let si = bytes_of(&agg["signatures"][i][0]["sigma"]);
+    let sj = bytes_of(&agg["signatures"][j][0]["sigma"]);
+    if si.len() != 48 || sj.len() != 48 {
+        return false;
+    }
+    unsafe {
+        let load = |b: &[u8]| -> Option<blst_p1> {
+            let mut a = blst_p1_affine::default();
+            if blst_p1_uncompress(&mut a, b.as_ptr()) != BLST_ERROR::BLST_SUCCESS {
+                return None;
+            }
+            let mut p = blst_p1::default();
+            blst_p1_from_affine(&mut p, &a);
+            Some(p)
+        };
+        let (Some(pi), Some(pj)) = (load(&si), load(&sj)) else { return false };
+        // P = tweak * generator
+        let mut t = [0u8; 16];
+        t[..8].copy_from_slice(&(tweak.max(2)).to_le_bytes());
+        let mut pp = blst_p1::default();
+        blst_p1_mult(&mut pp, blst_p1_generator(), t.as_ptr(), 128);
+        let mut cjp = blst_p1::default();
+        blst_p1_mult(&mut cjp, &pp, cj.as_ptr(), 128);
+        let mut cip = blst_p1::default();
+        blst_p1_mult(&mut cip, &pp, ci.as_ptr(), 128);
+        blst_p1_cneg(&mut cip, true);
+        let mut ni = blst_p1::default();
+        blst_p1_add_or_double(&mut ni, &pi, &cjp);
+        let mut nj = blst_p1::default();
+        blst_p1_add_or_double(&mut nj, &pj, &cip);
+        let mut oi = [0u8; 48];
+        let mut oj = [0u8; 48];
+        blst_p1_compress(oi.as_mut_ptr(), &ni);
+        blst_p1_compress(oj.as_mut_ptr(), &nj);
+        agg["signatures"][i][0]["sigma"] = json!(oi.to_vec());
+        agg["signatures"][j][0]["sigma"] = json!(oj.to_vec());
+    }
+    true
+}
 
 fn mutate(c: &Ctx, agg: &mut Value, name: &str, r: &mut ChaCha20Rng) -> bool {
     let m = c.w.params.m;
@@ -307,6 +354,34 @@ fn mutate(c: &Ctx, agg: &mut Value, name: &str, r: &mut ChaCha20Rng) -> bool {
             agg["signatures"][e][0]["sigma"] = json!(c.sigma_m[q]);
             agg["signatures"][e][0]["signer_index"] = json!(c.slot(q));
             true
+        }
+        "compensated_pair_unit" => {
+            if n < 2 {
+                return false;
+            }
+            let mut one = [0u8; 16];
+            one[0] = 1;
+            compensated_pair(agg, e, e2, one, one, 2 + below(r, 1000))
+        }
+        "compensated_pair_slot_hash" => {
+            // slots i, j >= 1 (slot 0 keeps a coefficient that cannot be known beforehand in the weakest variant)
+            if n < 3 {
+                return false;
+            }
+            use blake2::{Blake2b, Digest, digest::consts::U16};
+            let i = 1 + below(r, n as u64 - 1) as usize;
+            let mut j = 1 + below(r, n as u64 - 1) as usize;
+            if j == i {
+                j = if i + 1 < n { i + 1 } else { 1 };
+            }
+            let coeff = |slot: usize| -> [u8; 16] {
+                let mut h = Blake2b::<U16>::new();
+                h.update(slot.to_be_bytes());
+                let mut out = [0u8; 16];
+                out.copy_from_slice(&h.finalize());
+                out
+            };
+            compensated_pair(agg, i, j, coeff(i), coeff(j), 2 + below(r, 1000))
         }
         "forged_entry_dup_path_index" => {
             // one genuine entry + the same signature bound to a made-up (same key, inflated stake) entry that
@@ -501,6 +576,30 @@ fn main() {
                         }
                     }
                     emit_verify(&mut trace, &c, &a, &honest, &names.join("+"), &mut counts);
+                }
+            }
+            // worlds in which EVERY signature wins every index (phi_f = 1): a forged signature value passes the
+            // lottery, so pair forgeries reach the aggregate signature check itself
+            for wi in 0..args.num("pair-worlds", 4) {
+                let np = 4 + (wi % 2) as usize;
+                // three parties contribute two indices each (every signature wins every index here): an honest
+                // aggregate with three entries
+                let c = new_ctx(&mut r, np, 6, 6, 1.0, false);
+                let sigs: Vec<SingleSignature> = (0..3usize)
+                    .map(|q| serde_json::from_value(sig_json(&c.sigma_m[q], &[2 * q as u64, 2 * q as u64 + 1], c.slot(q))).unwrap())
+                    .collect();
+                let Some(honest) = c.w.aggregate(&sigs, &c.msg).ok().map(|a| serde_json::to_value(&a).unwrap()) else {
+                    *counts.entry("pair_world_without_aggregate".into()).or_insert(0) += 1;
+                    continue;
+                };
+                *counts.entry(format!("pair_world_entries:{}", honest["signatures"].as_array().map(|a| a.len()).unwrap_or(0))).or_insert(0) += 1;
+                for name in ["compensated_pair_unit", "compensated_pair_slot_hash"] {
+                    for _rep in 0..6 {
+                        let mut a = honest.clone();
+                        if mutate(&c, &mut a, name, &mut r) {
+                            emit_verify(&mut trace, &c, &a, &honest, name, &mut counts);
+                        }
+                    }
                 }
             }
         }
